@@ -71,7 +71,7 @@ def run_case(c):
     r = random.Random(c["seed"])
     avw, pw = c["avw"], c["pw"]
     avb, pb = avw // 8, pw // 8
-    aw_port = 14
+    aw_port = r.choice([14, 14, 24])
 
     class DUT(Module):
         def __init__(self):
